@@ -17,3 +17,8 @@ func VerifHookClear() { verifhook.Clear() }
 
 // VerifHookHits returns a copy of the hit counters.
 func VerifHookHits() map[string]uint64 { return verifhook.Hits() }
+
+// VerifHookSetData installs a data observer at the named point.
+func VerifHookSetData(name string, fn func(args ...any)) {
+	verifhook.SetData(name, fn)
+}
